@@ -7,7 +7,7 @@
 #include <new>
 using namespace vlog;
 
-static const int MAXC = 16;
+static const int MAXC = 2048;
 static int NH, NN, NC;
 static std::string flavor;
 static bool alive[MAXC];          // bookkeeping of what this driver did (no oracle)
